@@ -76,7 +76,7 @@ fn clock(e: &crate::rt::Execution, t: usize) -> Raw {
 }
 
 vharness! {
-    /// @prop C08,C05 @tier quick @mode fast @cost 2 @funcs Notify::notify,Ref::branch_opaque,Synchronize::sync_store,Thread::unpark,Set::split_active @bounds 3 threads, 1 Notify without stored notification, other threads symbolic (unrelated / blocked elsewhere / waiting on it), all clock values, notifier = thread 1
+    /// @prop C08,C05 @tier thorough @mode fast @cost 2 @funcs Notify::notify,Ref::branch_opaque,Synchronize::sync_store,Thread::unpark,Set::split_active @bounds 3 threads, 1 Notify without stored notification, other threads symbolic (unrelated / blocked elsewhere / waiting on it), all clock values, notifier = thread 1
     /// notify: the notification is stored, the notifier's view is released into the Notify, every thread blocked in wait() on it becomes runnable and inherits the notifier's view; threads blocked elsewhere stay blocked.
     #[cfg_attr(kani, kani::unwind(8))]
     fn notify_wakes_waiters_t1() {
@@ -132,7 +132,7 @@ fn wait_stored_case(spurious: bool, did: bool) {
 }
 
 vharness! {
-    /// @prop C08 @tier quick @mode fast @cost 3 @timeout 3600 @funcs Notify::wait,State::might_spur,Ref::branch_opaque,Synchronize::sync_load @bounds 3 threads, Notify with a stored notification, no spurious wake-ups (the JoinHandle configuration), waiter = thread 0
+    /// @prop C08 @tier thorough @mode fast @cost 3 @timeout 3600 @funcs Notify::wait,State::might_spur,Ref::branch_opaque,Synchronize::sync_load @bounds 3 threads, Notify with a stored notification, no spurious wake-ups (the JoinHandle configuration), waiter = thread 0
     /// a notification issued before the wait is not lost: wait() on a notified Notify returns without blocking, consumes the notification exactly once and acquires the notifier's view.
     #[cfg_attr(kani, kani::unwind(8))]
     fn notify_wait_consumes_stored_t0() { wait_stored_case(false, false) }
@@ -153,7 +153,7 @@ vharness! {
 }
 
 vharness! {
-    /// @prop C08,C05 @tier quick @mode fast @cost 2 @funcs Ref::branch_acquire,Execution::schedule @bounds 3 threads, Notify without stored notification and no spurious wake-up left, waiter = thread 2, thread 0 runnable
+    /// @prop C08,C05 @tier thorough @mode fast @cost 2 @funcs Ref::branch_acquire,Execution::schedule @bounds 3 threads, Notify without stored notification and no spurious wake-up left, waiter = thread 2, thread 0 runnable
     /// wait() without a notification blocks: the caller is Blocked with a pending operation on the Notify until notify() (first half of the real wait through the real branch_acquire/schedule).
     #[cfg_attr(kani, kani::unwind(8))]
     fn notify_wait_blocks_t2() {
@@ -181,7 +181,7 @@ vharness! {
 }
 
 vharness! {
-    /// @prop C08 @tier quick @mode fast @cost 2 @funcs Notify::wait,Path::branch_spurious,rt::yield_now,Thread::set_yield @bounds Notify with spurious wake-ups enabled, the spurious decision point replayed with value `true`, waiter = thread 0, thread 1 runnable
+    /// @prop C08 @tier thorough @mode fast @cost 2 @funcs Notify::wait,Path::branch_spurious,rt::yield_now,Thread::set_yield @bounds Notify with spurious wake-ups enabled, the spurious decision point replayed with value `true`, waiter = thread 0, thread 1 runnable
     /// the single modelled spurious return: wait() returns without consuming anything, marks the Notify so that no second spurious return is offered, and the waiter yields.
     #[cfg_attr(kani, kani::unwind(8))]
     fn notify_wait_spurious_once_t0() {
